@@ -612,7 +612,7 @@ class TraitListObject(TraitList):
         if object is None:
             return
 
-        if getattr(object, self.name) is not self:
+        if getattr(object, self.name, None) is not self:
             # Workaround having this list inside another container which
             # also uses the name_items trait for notification.
             # See enthought/traits#25, enthought/traits#281
